@@ -21,7 +21,17 @@ RULE = ("case = store kind (plain / pre-allocating with harness-chosen disjoint 
         "non-trivial = some value repeats AND (no pre-allocator or >=2 blocks requested); "
         "distinct by case hash")
 
-ALPHA = ['a', 'b', 'c', 'd', 'e', 'f', 'g', 'h', 't1', 't2', 's-1', 's-2', '', ' ', 'a ']
+# typed captures are stored as they are: the int 5 and the string '5' (1.5 and '1.5') are
+# unequal values that merely PRINT alike
+ALPHA = ['a', 'b', 'c', 'd', 'e', 'f', 'g', 'h', 't1', 't2', 's-1', 's-2', '', ' ', 'a ',
+         5, '5', 1.5, '1.5', 0, '0']
+
+
+def enc(v):
+    """ the model's values are strings: injective encoding of the others """
+    if v is None or isinstance(v, str):
+        return v
+    return '\x00%s:%r' % (type(v).__name__, v)
 
 
 def gen_case(rng, tier):
@@ -218,7 +228,7 @@ def model_case(case, impl):
     else:
         sup = impl['grants']      # what the shared pointer handed out (C06 covers it)
     return {'kind': 'store', 'B': case['B'], 'pre': kind != 'plain', 'sup': sup,
-            'ops': case['ops']}
+            'ops': [[enc(x) for x in op] for op in case['ops']]}
 
 
 def judge(rep, item, mobs):
@@ -238,6 +248,9 @@ def judge(rep, item, mobs):
     msteps = mobs['model']['steps']
     isteps = [{k: v for k, v in s.items() if k in ('ret', 'store', 'err')}
               for s in impl['steps']]
+    for st in isteps:
+        if 'store' in st:
+            st['store'] = dict(st['store'], data=[[k, enc(v)] for k, v in st['store']['data']])
     if isteps != msteps:
         for n, (a, b) in enumerate(zip(isteps, msteps)):
             if a != b:
